@@ -40,6 +40,8 @@ Decided (DESIGN.md section 5, C15):
      I3-handle-discipline             handle_type's value constructor is private; add_item takes the offset after a possible collection
                                       and before the buffer grows, pushes it, returns handle{index.size()}; lookups use value - 1;
                                       clear resets buffer, index and both counters
+     L1-special-members-memberwise    every user-written copy / move / swap of the id set, relations map and item stash classes handles every
+                                      data member of its record; a by-value assignment delegates to swap(*this, argument)
      I4-no-stale-buffer-offset        no local that holds Buffer::committed() / written() of the stash buffer is used after a call that
                                       (transitively) reaches Buffer::purge_removed / clear on the same path (garbage_collect relocates items)
 
@@ -1159,7 +1161,9 @@ def itemstash_rules(fb, R):
         # the slot may be overwritten only once the item reference was taken from the old offset
         reads = [n for n in fn.all_nodes() if n.get('k') == 'call' and n.get('q') == 'osmium::memory::Buffer::get' and n.get('args')
                  and (U.scn(fn, n['args'][0]) or {}).get('d') == offv and offv is not None]
-        ok = bool(asg) and okv and U.must_pass(fn, fn.entry, [a['id'] for a in asg]) is None \
+        # the store must reach the slot of the index vector: the local is a reference to it (not a copy of the offset)
+        is_alias = offv is not None and U._decl_type(fn, offv).rstrip().endswith('&') and not U._decl_type(fn, offv).lstrip().startswith('const ')
+        ok = bool(asg) and okv and is_alias and U.must_pass(fn, fn.entry, [a['id'] for a in asg]) is None \
             and all(all(fn.elem_dominates(r['id'], a['id']) for r in reads) for a in asg)
         R.check(ok, r1, key + '#index-slot-gets-sentinel', fn.site,
                 'remove_item must overwrite the index slot with removed_item_offset after using it (garbage collection matches live slots by offset)')
@@ -1409,7 +1413,26 @@ def itemstash_rules(fb, R):
 
 # ------------------------------------------------------------------------------------------------ driver
 
+# members deliberately not transferred member-wise: {(class, kind, field): reason}
+MEMBERWISE_EXCEPTIONS = {}
+
+
+def special_member_rules(fb, R, core=False):
+    rule = 'L1-special-members-memberwise'
+    want = {ITEMSTASH, ITEMSTASH + '::handle_type', ITEMSTASH + '::cleanup_helper'} if core else \
+        {ISD, ISI, ISS, FMAP, FMAP + '::kv_pair', STASH, RINDEX, RINDEXES, 'osmium::nwr_array'}
+    recs = [r for r in fb.records if r.q in want and r.fields]
+    exc = dict(MEMBERWISE_EXCEPTIONS)
+    for r in recs:
+        if r.q == ISD:
+            for f in r.fields:
+                if f['tC'].startswith('std::vector<std::unique_ptr<'):
+                    exc[(ISD, 'copy-ctor', f['name'])] = 'deep copy of the chunks, slot by slot: decided by A6-idset-copy-keeps-chunk-slots'
+    U.memberwise_rule(fb, R, rule, recs, exc)
+
+
 def index_rules(fb, R):
+    special_member_rules(fb, R)
     idset_dense_rules(fb, R)
     ordered_rules(fb, R)
     relmap_rules(fb, R)
@@ -1420,7 +1443,9 @@ def run(ctx):
     configs = ['ndebug14'] if ctx.tier == 'quick' else ['ndebug14', 'debug14', 'ndebug17', 'debug17']
     for cfg in configs:
         index_rules(ctx.facts(['index'], cfg), R)
-        itemstash_rules(ctx.facts(['core'], cfg), R)
+        fc = ctx.facts(['core'], cfg)
+        itemstash_rules(fc, R)
+        special_member_rules(fc, R, core=True)
     R.note('not decided: m_data[cid] in IdSetDenseIterator::next is bounded by the iterator invariant m_value < m_last, not by a dominating test')
     # instance floors = distinct (rule, key) pairs confirmed by reading the tree
     R.expect('A1-idset-bit-tiling', 7)              # partition + new[] x2 (+ element width) + memset + memcpy
@@ -1438,10 +1463,12 @@ def run(ctx):
     R.expect('I1-remove-pairs-updates', 4)
     R.expect('I2-gc-rewrites-index', 5)
     R.expect('I3-handle-discipline', 7)
+    R.expect('L1-special-members-memberwise', 5)     # IdSetDense: swap x 2 members, copy constructor x 2 (chunks: see A6), operator=(by value)
     R.expect('I4-no-stale-buffer-offset', 1)       # add_item (the only method holding a buffer position in a local)
 
 
 def _selftest_sets(fb, R):
+    special_member_rules(fb, R)
     idset_dense_rules(fb, R)
     ordered_rules(fb, R)
     relmap_rules(fb, R)
@@ -1452,4 +1479,5 @@ SELFTESTS = [(r, 'c15_sets.cpp', _selftest_sets) for r in (
     'A1-idset-bit-tiling', 'A2-idset-end-sentinel', 'A3-idset-iterator-skips', 'A4-idset-chunk-access-guarded',
     'A5-idset-size-tracks-bit-flips', 'A6-idset-copy-keeps-chunk-slots', 'S1-search-key-prefix-of-sort-key', 'S2-sort-unique-erase',
     'R1-builders-hand-out-sorted-maps', 'R2-merge-appends-every-element', 'R3-narrow-store-guarded', 'R4-index-dispatch',
-    'I1-remove-pairs-updates', 'I2-gc-rewrites-index', 'I3-handle-discipline', 'I4-no-stale-buffer-offset')]
+    'I1-remove-pairs-updates', 'I2-gc-rewrites-index', 'I3-handle-discipline', 'I4-no-stale-buffer-offset',
+    'L1-special-members-memberwise')]
